@@ -14,12 +14,18 @@ Tie: T + K.
      bindings, every use of `in_profile`, what `roll_passes` lists) and the two `__deepcopy__` methods as (path
      condition, statement) lists + every definition of a copy / pickle protocol method in the package - certified
      against the shape `Heap.solveVel` / `Heap.copyBody` assume.
+     Also read: the construction of a roll pass - the FORM in which `SymmetricRollPass.__init__` binds `self.roll`
+     (`Gen.C12.rollStore`: `.copy` = `self.Roll(roll, self)` unconditionally, `.adopt` = the object handed in; anything
+     else, e.g. a case distinction on what is handed in, is a broken tie), every binding of an attribute `roll` in the
+     package and every constructor statement in roll_pass/ that uses its parameter `roll` - `Heap.mkPass` takes the form.
   K  hand-written model lean/PyrollModel/Heap.lean (objects with identity, strong fields, weak back-links; solve as an
      effect trace; deep copy with memo; list edits).  One case = one HISTORY on real objects: build 1-2 caller
      profiles, grooves, roll templates (optionally looked at by the caller before use, optionally ONE Roll object for
-     two passes), up to 6 units (two-/three-roll passes with rotation off / automatic / an explicit angle, transports,
+     two passes, a pass built from THE ROLL OF ANOTHER PASS - unsolved, solved, of a deep copy -, a new template on the
+     groove object of another pass), up to 6 units (two-/three-roll passes with rotation off / automatic / an explicit angle, transports,
      cooling pipes, 0-2 explicit rotators of any angle between two passes, disk elements, nested sequences), then solve
-     / re-solve (whole sequence or one unit) / walk through a sequence unit by unit / run a velocity solver of a
+     / re-solve (whole sequence or one unit, also with the live in-/out-profile of the neighbour) / lay a second
+     sequence over units that are listed in one already / walk through a sequence unit by unit / run a velocity solver of a
      sequence (`solve_velocities_forward` / `_backward`: solve entry points that take the caller's profile) / keep
      handles / deep copy / append / replace / change a gap / give a unit an explicit value that is a callable holding
      on to another unit of the line (bound method, functools.partial, callable object) / read values on a profile,
@@ -35,13 +41,18 @@ templates - identity AND deep value of `__dict__` and `__cache__`) unchanged by 
 sub-tree and profiles already returned unchanged by later ops; no mutable value (set/list/dict/ndarray) reachable
 from any profile ever changes content after it was first seen; a unit / pass roll outside the solved sub-tree keeps
 its entries and every value it has evaluated (its cache may only gain entries); no two objects share one hook value
-cache; a deep copy shares no unit / profile / roll / sub-unit list with the original - reachability follows attributes,
+cache; no two units hold one roll / in-profile / out-profile / sub-unit list object, and the back-reference of each
+names the unit that holds it (whatever object - a template, the roll of another pass, the out-profile of another unit -
+the caller handed in); building a pass is an operation like any other (what was handed in and every other position
+unchanged); what belongs to a position that is not below the unit being solved is not that solve's to rewrite, also
+when the solved unit refers to it; a deep copy shares no unit / profile / roll / sub-unit list with the original - reachability follows attributes,
 containers, weak references AND callables given as values (`__self__` of a bound method, the arguments of a partial) -
 and every back-reference inside the copy points into the copy.
 """
 import copy
 import functools
 import logging
+import time
 import types
 import weakref
 
@@ -53,14 +64,17 @@ RULE = ("random histories on real objects: 1-2 caller profiles (round 30 mm / 55
         "composition dict, ndarray, tag set; in 25% the caller reads values on the profile before he hands it over), 1-6 "
         "units in rolling order (two-roll oval/round chain or three-roll chain, transports, cooling pipes, 0-2 explicit "
         "rotators of 45/90/180 (three-roll: 60/120/180) degrees between two passes, pass rotation False / True / an explicit "
-        "angle completing the turn, 0-2 disk elements, roll templates read before use (30%) and one Roll object used for "
-        "two passes (25% two positions later, 50% of the replacements), optionally a nested sequence; in 30% 1-2 units get "
+        "angle completing the turn, 0-2 disk elements, roll templates read before use (30%); an object of an earlier pass "
+        "handed to a later one (30% two positions later, 55% of the replacements; of a deep copy's pass 40%): its Roll "
+        "template (2/5), ITS OWN ROLL - RollPass(roll=other.roll), unsolved or solved - (2/5), a new template on its groove "
+        "object (1/5); optionally a nested sequence; in 30% 1-2 units get "
         "an explicit value (`duration` of a transport, a custom entry) that holds on to a unit of the line: a callable - "
         "bound method / functools.partial / callable object - or a list / dict naming it), then 3-9 actions: "
         "solve root / solve one unit / walk through a sequence unit by unit with the returned profiles / re-solve with "
         "another or a returned profile / solve_velocities_forward or _backward of a sequence that lists a roll pass "
         "(any first unit; as the first solve of fresh objects in 12%, else with a (sequence, profile) pair a plain solve "
-        "has shown to converge) / keep handles / deep copy (root or nested) and continue on copy and original / "
+        "has shown to converge) / keep handles / deep copy (root or nested) and continue on copy and original / a second "
+        "sequence laid over a leading part of an existing one (3%) / "
         "append / replace / change gap / bind a callable / read values on a profile, a template, a unit, its roll or its profiles / "
         "register a classifier hook on a throw-away Transport subclass; ~8% of the cases contain a physically "
         "infeasible pass (solve raises inside pyroll: only the oracle runs from there). A case is non-trivial when it "
@@ -76,6 +90,10 @@ ASSUMPTIONS = [
     "names are root hooks of an out-profile (the registry `root_hooks`) is hand-written in the model as far as it has them "
     "(cross_section, classifiers, t; of a pass also technologically_orientated_cross_section) and tied by the sampled "
     "comparison of the aliasing graphs after re-solves",
+    "the form in which SymmetricRollPass.__init__ binds self.roll is read from the source (a new pass roll made from the "
+    "object handed in / the object itself; anything else is a broken tie); the model's constructor (Heap.mkPass) follows the "
+    "value read and the certificate demands the first; that TwoRollPass / ThreeRollPass hand their roll on unchanged is "
+    "certified textually (rollParamUses)",
     "hook value caches are modelled as MAY-effects (which names a solve caches depends on the registered hook "
     "functions): the model says on which objects a cache can change, the comparison checks that the implementation "
     "changes no other; what the caller's own reading caches is an input of the model (observed on the implementation)",
@@ -419,12 +437,35 @@ def names_of(lib, k, o):
 # ---------------------------------------------------------------------------------------------------
 # iteration counts from the implementation's own log
 # ---------------------------------------------------------------------------------------------------
+class SolveBudget(Exception):
+    """raised by the harness (from its log handler) inside a solve that runs away: solution loops that do not converge
+    at several nesting levels at once multiply (99 x 99 x 99 … solves, hours).  Treated like a solve that raised inside
+    pyroll: the history ends there, the oracle's clauses for an interrupted solve apply"""
+
+
+MAX_SOLVE_STARTS = 25000        # nested solve calls in ONE op (a lone non-converging pass: 99 x 2 disks x 99 = 19 602)
+MAX_SOLVE_SECONDS = 45.0        # backstop (pyroll formats the whole unit into every log message: up to 30 ms per call)
+
+
+def _is_budget(e):
+    """SolveBudget, also when pyroll has wrapped it into another exception on the way up"""
+    seen = 0
+    while e is not None and seen < 20:
+        if isinstance(e, SolveBudget):
+            return True
+        e = e.__cause__ or e.__context__
+        seen += 1
+    return False
+
+
 class IterLog(logging.Handler):
     def __init__(self):
         super().__init__(level=logging.INFO)
         self.stack = []
         self.counts = []
         self.tops = 0            # solve calls that are not nested in another solve
+        self.starts = 0
+        self.t0 = time.monotonic()
 
     def emit(self, rec):
         try:
@@ -432,6 +473,9 @@ class IterLog(logging.Handler):
         except Exception:
             return
         if msg.startswith("Started solving of"):
+            self.starts += 1
+            if self.starts > MAX_SOLVE_STARTS or time.monotonic() - self.t0 > MAX_SOLVE_SECONDS:
+                raise SolveBudget(f"{self.starts} nested solve calls, {time.monotonic() - self.t0:.0f} s")
             if not self.stack:
                 self.tops += 1
             self.stack.append(len(self.counts))
@@ -551,6 +595,56 @@ class Oracle:
                 ids.add(id(r))
         return ids
 
+    def foreign(self, u):
+        """(ids of units / rolls, ids of in- and out-profiles) that belong to known positions NOT below `u`.  Solving or
+        editing `u` has to leave them alone ("never lets state leak between positions") - also when `u` or a unit below
+        it REFERS to one of them (a pass that holds on to the roll of another pass): what belongs to another position
+        is not `u`'s to rewrite"""
+        below = {id(x) for x in self.units_below(u)}
+        hosts, profs = set(), set()
+        for what, o, _ in self.state.values():
+            if what != "unit" or id(o) in below:
+                continue
+            hosts.add(id(o))
+            r = o.__dict__.get("roll")
+            if r is not None:
+                hosts.add(id(r))
+            for a in ("in_profile", "out_profile"):
+                p = o.__dict__.get(a)
+                if p is not None:
+                    profs.add(id(p))
+        return hosts, profs
+
+    def check_positions(self):
+        """no aliasing between positions: the hook hosts / lists a unit holds as ITS roll, in-profile, out-profile and
+        sub-unit list (the library makes them for the unit) are held by no second unit, and their back-reference
+        (`roll.roll_pass`, `profile.unit`, the list's owner) names the unit that holds them - whatever object the
+        caller handed in when he built the unit (a roll template, the roll of another pass) or solved it (a caller
+        profile, the out-profile of another unit)"""
+        holder = {}
+        for what, u, _ in list(self.state.values()):
+            if what != "unit":
+                continue
+            for attr, nm, back, bnm in (("roll", "roll", "_roll_pass", "roll_pass"), ("in_profile", "profile", "_unit", "unit"),
+                                        ("out_profile", "profile", "_unit", "unit"), ("_subunits", "sublist", "_owner", "owner")):
+                x = u.__dict__.get(attr)
+                if x is None or not hasattr(x, "__dict__"):
+                    continue
+                first = holder.setdefault(id(x), (u, attr))
+                if first[0] is not u or first[1] != attr:
+                    key = f"position-shares:{nm}"
+                    if not any(k == key for k, _ in self.problems):
+                        self.problems.append((key, f"the {type(first[0]).__name__} {getattr(first[0], 'label', '')!r} "
+                                              f"({first[1]}) and the {type(u).__name__} {getattr(u, 'label', '')!r} ({attr}) "
+                                              f"hold ONE {type(x).__name__} object: two positions share a mutable object"))
+                r = x.__dict__.get(back)
+                t = r() if isinstance(r, weakref.ref) else r
+                if t is not None and t is not u:
+                    key = f"backlink-foreign:{bnm}"
+                    if not any(k == key for k, _ in self.problems):
+                        self.problems.append((key, f"the {attr} of the {type(u).__name__} {getattr(u, 'label', '')!r} names "
+                                              f"another position as its {bnm}: {type(t).__name__} {getattr(t, 'label', '')!r}"))
+
     # -- checks ---------------------------------------------------------------------------------
     def check(self, op, allowed, roots, allowed_hosts=frozenset()):
         """after an op: `allowed` = ids of the profile objects the op may legitimately rewrite, `allowed_hosts` = ids
@@ -595,6 +689,7 @@ class Oracle:
         """new baseline (after an op was checked, or after the CALLER himself read values on the objects)"""
         self.scan(roots)
         self.check_caches()
+        self.check_positions()
         for pid, (p, s) in list(self.profiles.items()):
             self.profiles[pid] = (p, snap(p))
         self.values = {k: (x, fp(x), w) for k, (x, f, w) in self.values.items()}
@@ -730,14 +825,28 @@ class Oracle:
         return seen
 
     def check_copy_live(self, orig):
-        """a deep copy WITHOUT an outer memo: every back-reference that is live in the original and points into the
-        copied tree must be live in the copy (root copies only)"""
-        cp = copy.deepcopy(orig)
+        """a deep copy WITHOUT an outer memo: every back-reference that is live in the original and points INTO the
+        copied tree must be live in the copy (root copies only).  A back-reference of the original that leaves the tree
+        being copied (a unit held by a callable value whose own sequence is another one: the unit it sits on is listed
+        in two sequences) has its target copied by `HookHost.__deepcopy__`, but nothing holds that copy - the reference
+        is dead afterwards, never into the original (notes O3)"""
+        memo = {}
+        cp = copy.deepcopy(orig, memo)
+        tree = self.reach_strong(orig)
+        original_of = {id(memo[i]): o for i, o in tree.items() if i in memo}
+        memo.clear()
+        del memo
         strong = self.reach_strong(cp)
         for o in strong.values():
             for attr, nm in (("_unit", "unit"), ("_roll_pass", "roll_pass"), ("_owner", "owner"), ("_parent", "parent")):
                 r = getattr(o, "__dict__", {}).get(attr)
                 if isinstance(r, weakref.ref) and r() is None and o is not cp:
+                    src = original_of.get(id(o))
+                    if src is not None:
+                        ro = src.__dict__.get(attr)
+                        to = ro() if isinstance(ro, weakref.ref) else None
+                        if to is None or id(to) not in tree:
+                            continue            # dead / leaving the copied tree in the original already
                     self.problems.append((f"deepcopy-backlink-dead:{nm}", f"{nm} back-reference of a copied "
                                           f"{type(o).__name__} is dead after copy.deepcopy of a root sequence"))
                 elif isinstance(r, weakref.ref) and r() is not None and id(r()) not in strong and o is not cp:
@@ -788,6 +897,7 @@ class World:
         self.memos = []           # deep copy memos, kept alive
         self.hooked = []          # (hook, function) registered on throw-away classes
         self.failed_solve = False
+        self.aborted = False      # a solve was stopped by the harness (SolveBudget)
         self.ops = []
         self.tpl_of = {}          # slot of a pass -> slot of the roll template it was built from
         self.model_cut = False
@@ -899,16 +1009,57 @@ class World:
         self.oracle.see_profile(p)
         return k
 
-    def op_pass(self, chain, pos, rot, disks, gapj, like=None, look=()):
-        """`rot`: bool (automatic rotation on/off) or an explicit angle; `like`: slot of an earlier pass whose roll
-        template is used again (one Roll object for two passes); `look`: attributes the caller reads on the
-        template BEFORE he hands it to the pass constructor"""
+    def op_pass(self, chain, pos, rot, disks, gapj, like=None, look=(), via="template"):
+        """`rot`: bool (automatic rotation on/off) or an explicit angle; `like`: slot of an earlier pass from which the
+        new one takes an object that already belongs to that position - `via` = "template": the Roll object the earlier
+        pass was built from (one template for two passes), "roll": THE ROLL OF THE EARLIER PASS itself
+        (`RollPass(roll=other_pass.roll, …)`, solved or not), "groove": a new Roll template on the groove object of the
+        earlier pass' template (one groove object under two rolls); `look`: attributes the caller reads on the roll
+        object BEFORE he hands it to the pass constructor.
+        Building a pass is an operation of the library: the oracle's clauses apply to it (what was handed in and every
+        other position unchanged, the new pass shares nothing with another position, back-references name the own pass)"""
         pr = self.lib.pr
         rotation = rot if isinstance(rot, bool) else float(rot)
         kw = {}
         if disks:
             kw["disk_element_count"] = disks
         cls = pr.ThreeRollPass if chain == "3" else pr.TwoRollPass
+        src = self.slots[like] if like is not None else None
+        if src is not None and via == "roll" and self.lib.tag(src) == 1 and src.__dict__.get("roll") is not None:
+            r = src.__dict__["roll"]
+            self.oracle.scan(self.all_roots())        # the position the roll belongs to is known BEFORE it is handed on
+            if look:
+                pre = self.cache_state() if self.model_ok else None
+                self.read(r, look)
+                self.oracle.rebase(self.all_roots())
+                self.emit_look(pre)
+            pre_c = self.before() if self.model_ok else None
+            u = cls(label=f"pass{pos}", roll=r, gap=2e-3 * gapj, rotation=rotation, **kw)
+            ku = self.reg(u)
+            self.emit(f"passr {1 if rot else 0} {disks} {like}", self.written(pre_c) if self.model_ok else None)
+            if like in self.tpl_of:
+                self.tpl_of[ku] = self.tpl_of[like]
+            self.finish_construct(u)
+            return ku
+        if src is not None and via == "groove" and like in self.tpl_of:
+            g = self.slots[self.tpl_of[like]].groove
+            kg = self.find(g)
+            tpl = pr.Roll(groove=g, nominal_radius=160e-3, rotational_frequency=1)
+            if look:
+                self.read(tpl, look)
+            kt = self.reg(tpl)
+            self.emit(f"template {kg}", "ok")
+            if tpl.__dict__.get("__cache__"):
+                self.emit(f"look {kt}", "ok")
+            self.oracle.add_input("roll-template", tpl)
+            self.oracle.scan(self.all_roots())
+            pre_c = self.before() if self.model_ok else None
+            u = cls(label=f"pass{pos}", roll=tpl, gap=2e-3 * gapj, rotation=rotation, **kw)
+            ku = self.reg(u)
+            self.emit(f"pass {1 if rot else 0} {disks} {kt}", self.written(pre_c) if self.model_ok else None)
+            self.tpl_of[ku] = kt
+            self.finish_construct(u)
+            return ku
         if like is not None and like in self.tpl_of:
             kt = self.tpl_of[like]
             tpl = self.slots[kt]
@@ -917,11 +1068,13 @@ class World:
                 self.read(tpl, look)
                 self.oracle.rebase(self.all_roots())
                 self.emit_look(pre)
+            self.oracle.scan(self.all_roots())
+            pre_c = self.before() if self.model_ok else None
             u = cls(label=f"pass{pos}", roll=tpl, gap=2e-3 * gapj, rotation=rotation, **kw)
             ku = self.reg(u)
-            self.emit(f"pass {1 if rot else 0} {disks} {kt}", "ok")
-            self.emit("dump", dump(self.lib, self.slots))
+            self.emit(f"pass {1 if rot else 0} {disks} {kt}", self.written(pre_c) if self.model_ok else None)
             self.tpl_of[ku] = kt
+            self.finish_construct(u)
             return ku
         if chain == "3":
             g = (pr.CircularOvalGroove(depth=8e-3, r1=6e-3, r2=40e-3, pad_angle=30) if pos % 2 == 0
@@ -934,6 +1087,10 @@ class World:
         tpl = pr.Roll(groove=g, nominal_radius=160e-3, rotational_frequency=1)
         if look:
             self.read(tpl, look)
+        # what the caller hands to the constructor is an input from here on
+        self.oracle.add_input("groove", g)
+        self.oracle.add_input("roll-template", tpl)
+        pre_c = self.before() if self.model_ok else None
         u = cls(label=f"pass{pos}", roll=tpl, gap=2e-3 * gapj, rotation=rotation, **kw)
         kv = self.reg(g._classifiers)
         self.emit("value 5", "ok")
@@ -944,12 +1101,22 @@ class World:
         if tpl.__dict__.get("__cache__"):
             self.emit(f"look {kt}", "ok")
         ku = self.reg(u)
-        self.emit(f"pass {1 if rot else 0} {disks} {kt}", "ok")
-        self.emit("dump", dump(self.lib, self.slots))       # the pass roll starts with an empty cache of its own
-        self.oracle.add_input("groove", g)
-        self.oracle.add_input("roll-template", tpl)
+        self.emit(f"pass {1 if rot else 0} {disks} {kt}", self.written(pre_c) if self.model_ok else None)
         self.tpl_of[ku] = kt
+        self.finish_construct(u)            # (dump: the pass roll starts with an empty cache of its own)
         return ku
+
+    def finish_construct(self, u):
+        """a pass was built: nothing that existed may have changed - the roll object handed in, the position it belongs
+        to, every other unit / roll / profile (`allowed_hosts` = the new pass and its roll, MINUS whatever belongs to
+        another position) - and the new pass is a position of its own (`Oracle.check_positions`)"""
+        hosts = {id(u)}
+        r = u.__dict__.get("roll")
+        if r is not None:
+            hosts.add(id(r))
+        hosts -= self.oracle.foreign(u)[0]
+        self.oracle.check("construct", set(), self.all_roots(), hosts)
+        self.emit("dump", dump(self.lib, self.slots))
 
     def op_transport(self, disks, sub, cooling):
         pr = self.lib.pr
@@ -973,9 +1140,15 @@ class World:
         return k
 
     def op_seq(self, us):
+        listed = any(self.slots[k].parent is not None for k in us)
         s = self.lib.pr.PassSequence([self.slots[k] for k in us], label="seq")
         k = self.reg(s)
+        self.converged.clear()
         self.emit("seq " + (",".join(map(str, us)) if us else "-"), "ok")
+        if listed:
+            # units that are listed in another sequence already (a second line laid over part of the first): the new
+            # sequence takes over the parent link, the old one keeps listing them
+            self.emit("dump", dump(self.lib, self.slots))
         # building the line is the caller's doing (the units get their parent): the oracle's baseline starts here
         self.oracle.rebase(self.all_roots())
         return k
@@ -992,15 +1165,18 @@ class World:
                 r = u.solve(p)
             except Exception as e:
                 from driver import core
-                if not core._raised_in_impl(e):
+                if _is_budget(e):
+                    self.aborted = True
+                elif not core._raised_in_impl(e):
                     raise
                 err = e
         if err is not None:
             # the solve raised inside pyroll (infeasible pass): the model cannot follow; the oracle still applies
             self.failed_solve = True
             self.model_ok = False
-            self.oracle.check("failed-solve", allowed | self.subtree_profiles(u), self.all_roots(),
-                              hosts | self.oracle.hosts_below(u))
+            fh, fp_ = self.oracle.foreign(u)
+            self.oracle.check("failed-solve", (allowed | self.subtree_profiles(u)) - fp_, self.all_roots(),
+                              (hosts | self.oracle.hosts_below(u)) - fh)
             return None
         if self.model_ok and any(c is None for c in h.counts):
             self.model_ok = False
@@ -1017,7 +1193,9 @@ class World:
             its = ",".join(str(c) for c in h.counts + [0])
             self.emit(f"solve {ku} {kp} {its}", f"{self.written(pre)} | left=1")
         self.oracle.add_returned(r)
-        self.finish_op("solve", allowed | self.subtree_profiles(u) | {id(r)}, hosts | self.oracle.hosts_below(u))
+        fh, fp_ = self.oracle.foreign(u)
+        self.finish_op("solve", (allowed | self.subtree_profiles(u) | {id(r)}) - fp_,
+                       (hosts | self.oracle.hosts_below(u)) - fh)
         return k
 
     def op_keep(self, ku):
@@ -1114,14 +1292,17 @@ class World:
                     u.solve_velocities_backward(p, speed, area)
             except Exception as e:
                 from driver import core
-                if not core._raised_in_impl(e):
+                if _is_budget(e):
+                    self.aborted = True
+                elif not core._raised_in_impl(e):
                     raise
                 err = e
         if err is not None:
             self.failed_solve = True
             self.model_ok = False
-            self.oracle.check("failed-" + name, allowed | self.subtree_profiles(u), self.all_roots(),
-                              hosts | self.oracle.hosts_below(u))
+            fh, fp_ = self.oracle.foreign(u)
+            self.oracle.check("failed-" + name, (allowed | self.subtree_profiles(u)) - fp_, self.all_roots(),
+                              (hosts | self.oracle.hosts_below(u)) - fh)
             return None
         if self.model_ok and (any(c is None for c in h.counts) or h.stack):
             self.model_ok = False
@@ -1131,7 +1312,8 @@ class World:
         if self.model_ok:
             its = ",".join(str(c) for c in h.counts + [0])
             self.emit(f"solvev {ku} {kp} {h.tops} {its}", f"{self.written(pre)} | left=1")
-        self.finish_op(name, allowed | self.subtree_profiles(u), hosts | self.oracle.hosts_below(u))
+        fh, fp_ = self.oracle.foreign(u)
+        self.finish_op(name, (allowed | self.subtree_profiles(u)) - fp_, (hosts | self.oracle.hosts_below(u)) - fh)
         return True
 
     def op_inspect(self, k, names):
@@ -1185,6 +1367,10 @@ LOOK_UNIT = {1: ["roll.working_radius", "roll.contour_line", "roll.min_radius", 
              4: ["rotation", "out_profile.width", "out_profile.classifiers", "in_profile.height", "duration"]}
 
 
+# how a pass takes over an object of an earlier pass (see World.op_pass)
+VIA = ["template", "template", "roll", "roll", "groove"]
+
+
 def some(rng, pool, hi=3):
     return rng.sample(pool, rng.randrange(1, min(hi, len(pool)) + 1))
 
@@ -1232,9 +1418,12 @@ def gen_history(rng, w, n_actions, infeasible):
         r = rng.random()
         if r < 0.5 and pos < max_pass:
             rot = pass_rotation(rng, chain, pos, acc, infeasible)
-            like = pass_at.get(pos - 2) if rng.random() < 0.25 else None      # the same roll object two passes later
+            # an object of an earlier position handed to this one: the same Roll template two passes later, the ROLL OF
+            # THAT PASS itself, or a new template on the same groove object
+            like = pass_at.get(pos - 2) if rng.random() < 0.3 else None
+            via = rng.choice(VIA) if like is not None else "template"
             look = some(rng, LOOK_TEMPLATE) if rng.random() < 0.3 else []
-            k = w.apply(("pass", chain, pos, rot, rng.choice([0, 0, 1, 2]), rng.choice([1.0, 0.9, 1.1]), like, look))
+            k = w.apply(("pass", chain, pos, rot, rng.choice([0, 0, 1, 2]), rng.choice([1.0, 0.9, 1.1]), like, look, via))
             units.append(k)
             pass_at[pos] = k
             pos += 1
@@ -1314,9 +1503,10 @@ def gen_history(rng, w, n_actions, infeasible):
             if ku is None:
                 continue
             if i > 0 and lst[i - 1].out_profile is not None and rng.random() < 0.7:
-                # the hand-over as the sequence does it: a fresh public copy of the predecessor's out-profile
+                # a profile object that BELONGS to the neighbouring position handed in as it is: the predecessor's live
+                # out-profile (what the sequence hands over is a public copy of it), now and then its in-profile
                 w.apply(("keep", w.find(lst[i - 1])))
-                src = len(w.slots) - 1
+                src = len(w.slots) - (1 if rng.random() < 0.8 else 2)
             else:
                 src = rng.choice(profs)
             k = w.apply(("solve", ku, src))
@@ -1370,11 +1560,20 @@ def gen_history(rng, w, n_actions, infeasible):
             cand = [c for c in cand if c is not None]
             if cand:
                 w.apply(("keep", rng.choice(cand)))
-        elif r < 0.67:
+        elif r < 0.64:
             tgt = rng.choice(all_roots + ([nested] if nested is not None and rng.random() < 0.4 else []))
             c = w.apply(("deepcopy", tgt))
             if c is not None and w.slots[c].parent is None and tgt != nested:
                 copies.append(c)
+        elif r < 0.67:
+            # units that are listed in one sequence handed to a second one: another line laid over a leading part of an
+            # existing one (the new sequence takes the parent links, the old one keeps listing the units)
+            q = w.slots[rng.choice(all_roots)]
+            ks = [w.find(u) for u in q._subunits]
+            if len(ks) < 1 or any(k is None for k in ks):
+                continue
+            k2 = w.apply(("seq", ks[:rng.randrange(1, len(ks) + 1)]))
+            copies.append(k2)
         elif r < 0.74:
             q = rng.choice(all_roots)
             k = w.apply(("transport", rng.choice([0, 1]), False, False))
@@ -1394,9 +1593,15 @@ def gen_history(rng, w, n_actions, infeasible):
                 rot = old.rotation
                 rot = rot if isinstance(rot, bool) else int(rot)
                 ko = w.find(old)
-                like = ko if ko in w.tpl_of and rng.random() < 0.5 else None     # same roll, other gap
+                # "same roll, other gap": the replacement is built from an object of the pass it replaces - its template,
+                # ITS ROLL (of a solved pass, also of a pass in a deep copy), a new template on its groove
+                like, via = None, "template"
+                if ko is not None and ko in w.tpl_of and rng.random() < 0.55:
+                    like, via = ko, rng.choice(VIA)
+                elif ko is not None and ko not in w.tpl_of and rng.random() < 0.4:
+                    like, via = ko, "roll"
                 look = some(rng, LOOK_TEMPLATE) if rng.random() < 0.3 else []
-                k = w.apply(("pass", chain, p, rot, rng.choice([0, 1]), rng.choice([0.8, 1.2]), like, look))
+                k = w.apply(("pass", chain, p, rot, rng.choice([0, 1]), rng.choice([0.8, 1.2]), like, look, via))
             w.apply(("replace", q, i, k))
         elif r < 0.88:
             q = w.slots[rng.choice(all_roots)]
@@ -1519,6 +1724,37 @@ CORPUS = [
      (None, ("solve", "$c", "$p")), (None, ("deepcopy", "$n")), (None, ("bind", "$t2", "duration", "object", "$t")),
      (None, ("deepcopy", "$c")), (None, ("bind", "$b", "pacing", "list", "$t2")), (None, ("deepcopy", "$s")),
      (None, ("solvev", "$s", "$p", "backward", 2.0, 4e-4))],
+    # an object that belongs to one position handed to a second one: a pass built from THE ROLL OF ANOTHER PASS - of a
+    # pass not solved yet (two positions of one sequence), of a solved pass (the replacement "same roll, other gap"; the
+    # caller has looked at that roll), of a pass of a deep copy -, a new Roll template on the groove object of another
+    # pass; the replaced pass solved on its own afterwards; the neighbour's live in-profile handed to a unit
+    [("p", ("profile", "A", ["material"])), ("a", ("pass", "A", 0, True, 0, 1.0)), ("t", ("transport", 1, False, False)),
+     ("b", ("pass", "A", 1, True, 0, 1.0)), ("c", ("pass", "A", 2, True, 0, 0.5, "$a", [], "roll")),
+     ("s", ("seq", ["$a", "$t", "$b", "$c"])), (None, ("solve", "$s", "$p")),
+     (None, ("inspect", "$a", ["roll.contact_area", "roll.roll_power"])),
+     ("a2", ("pass", "A", 0, True, 1, 1.2, "$a", ["working_radius"], "roll")), (None, ("replace", "$s", 0, "$a2")),
+     (None, ("solve", "$s", "$p")), (None, ("solve", "$a", "$p")), (None, ("solve", "$c", "$p")),
+     ("d", ("pass", "A", 1, True, 0, 1.1, "$b", ["width"], "groove")), (None, ("replace", "$s", 2, "$d")),
+     (None, ("solve", "$s", "$p")), ("k", ("keep", "$t")), (None, ("solve", "$d", "$k")), ("x", ("deepcopy", "$s")),
+     (None, ("solve", "$x", "$p")), (None, ("solve", "$a2", "$p"))],
+    # units listed in one sequence handed to a second one (a shorter line laid over the head of the first): both solved,
+    # both deep-copied, a pass of the shared part replaced by one built from its roll
+    [("p", ("profile", "A", ["my_tags"])), ("a", ("pass", "A", 0, True, 0, 1.0)), ("t", ("transport", 0, False, False)),
+     ("b", ("pass", "A", 1, True, 1, 1.0)), ("s", ("seq", ["$a", "$t", "$b"])), (None, ("solve", "$s", "$p")),
+     ("s2", ("seq", ["$a", "$t"])), (None, ("solve", "$s2", "$p")), (None, ("solve", "$s", "$p")),
+     (None, ("deepcopy", "$s")), (None, ("deepcopy", "$s2")),
+     ("a2", ("pass", "A", 0, True, 0, 0.9, "$a", [], "roll")), (None, ("replace", "$s2", 0, "$a2")),
+     (None, ("solve", "$s2", "$p")), (None, ("solve", "$s", "$p")), (None, ("deepcopy", "$s"))],
+    # a transport listed in two sequences whose `duration` is a callable holding on to a rotator of the FIRST sequence
+    # only; deep copy of the second (a root): the rotator is part of the copy through the callable, the copy of its parent
+    # (the first sequence, not part of the copied tree) is held by nobody - that back-reference is dead, not into the
+    # original (a history on which `check_copy_live` demanded more than its clause says)
+    [("p", ("profile", "A", ["material", "chemical_composition", "my_array"])), ("t", ("transport", 1, True, False)),
+     ("r1", ("rotator", 90)), ("r2", ("rotator", 45)), ("a", ("pass", "A", 0, 90, 0, 1.0)),
+     ("s", ("seq", ["$t", "$r1", "$r2", "$a"])), (None, ("bind", "$t", "duration", "partial", "$r1")),
+     (None, ("solve", "$s", "$p")), (None, ("solvev", "$s", "$p", "forward", 0.5, 0.0)), (None, ("keep", "$s")),
+     (None, ("bind", "$r1", "pacing", "partial", "$a")), ("s2", ("seq", ["$t"])), (None, ("solve", "$s2", "$p")),
+     (None, ("deepcopy", "$s2")), (None, ("deepcopy", "$s"))],
 ]
 
 
@@ -1567,6 +1803,7 @@ class Record:
         self.problems = list(w.oracle.problems)
         self.first_at = dict(w.oracle.first_at)
         self.failed_solve = w.failed_solve
+        self.aborted = w.aborted
         self.model_cut = w.model_cut
         self.stream = stream
         self.graph = dump(w.lib, w.slots)[:1500]
@@ -1595,7 +1832,9 @@ def run(ctx):
         ctx.count("stream:" + r.stream)
         for o in ops:
             ctx.count("op:" + o[0])
-        if r.failed_solve:
+        if r.aborted:
+            ctx.count("solve-stopped-by-harness:runaway-solution-loops")
+        elif r.failed_solve:
             ctx.count("solve-raised-inside-pyroll")
         if r.model_cut:
             ctx.count("model-side-cut:non-converging-solve")
